@@ -49,6 +49,7 @@ OWNERS = [
     (r'dasp_signal::', 'C04'),
 ]
 OWNERS = [(re.compile(p), o) for p, o in OWNERS]
+NOSTD_CODE = ('C11', 'C17', 'C18', 'C19', 'C20')      # dasp_sample::ops, dasp_signal::ops, sinc::ops, detect::ops, hann::ops
 IMPLICIT_TRAITS = ('core::ops::drop::Drop', 'core::ops::deref::Deref', 'core::ops::deref::DerefMut')
 NOT_SPECIFIC = re.compile(r'^(heap\.|dep\.|rms\.precision$|coverage\.)|inventory')
 
